@@ -118,6 +118,35 @@ def check_model(ctx, fm, idx):
         ctx.violation("concrete", f"reconstruction_error changed the model: n_sensors/selection {before[:2]} → {after[:2]}",
                       {"signature": "reconstruction-error-changes-model", **base, "sensor_range": ks})
         return
+    # the same sweep when it cannot be completed (a score callable that rejects one count, a test batch with a missing value):
+    # the caller catches the error – the model's own sensor count must still be what it was
+    if rng.random() < 0.5 and len(ks) >= 1:
+        calls = {"n": 0}
+        fail_at = rng.randint(1, len(ks))
+
+        def picky(y_true, y_pred):
+            calls["n"] += 1
+            if calls["n"] == fail_at:
+                raise RuntimeError("score undefined for this sensor count")
+            return 0.0
+
+        Xbad = Xt.copy()
+        how = rng.choice(["score_raises", "nan_in_batch"])
+        try:
+            if how == "score_raises":
+                model.reconstruction_error(Xt, sensor_range=sr, score=picky)
+            else:
+                Xbad[0, ranking[0]] = np.nan
+                model.reconstruction_error(Xbad, sensor_range=sr)
+        except Exception:
+            pass
+        ctx.count("reconstruction_error_interrupted:" + how)
+        after2 = (model.n_sensors, np.array(model.get_selected_sensors()).tolist(), np.array(model.get_all_sensors()).tolist())
+        if before != after2:
+            ctx.violation("concrete", f"a reconstruction_error sweep that ended in an exception ({how}) changed the model: n_sensors/selection "
+                                      f"{before[:2]} → {after2[:2]}",
+                          {"signature": "reconstruction-error-changes-model", **base, "sensor_range": ks, "interrupted_by": how})
+            return
     if err.shape != (len(ks),):
         ctx.violation("concrete", f"reconstruction_error returned shape {err.shape} for {len(ks)} requested counts",
                       {"signature": "reconstruction-error-shape", **base, "sensor_range": ks})
